@@ -3,6 +3,8 @@ use crate::common::Unit;
 
 pub mod c01;
 pub mod c12;
+pub mod c11;
+pub mod c09;
 pub mod c10;
 pub mod c07;
 pub mod c06;
@@ -12,12 +14,14 @@ pub mod c13;
 pub mod c08;
 pub mod c03;
 
-pub const ALL: &[&str] = &["C01", "C03", "C04", "C05", "C06", "C07", "C08", "C10", "C12", "C13"];
+pub const ALL: &[&str] = &["C01", "C03", "C04", "C05", "C06", "C07", "C08", "C09", "C10", "C11", "C12", "C13"];
 
 pub fn units(prop: &str, tier: &str, seed: u64) -> Vec<String> {
     match prop {
         "C01" => c01::units(tier, seed),
         "C12" => c12::units(tier, seed),
+        "C11" => c11::units(tier, seed),
+        "C09" => c09::units(tier, seed),
         "C10" => c10::units(tier, seed),
         "C07" => c07::units(tier, seed),
         "C06" => c06::units(tier, seed),
@@ -34,6 +38,8 @@ pub fn scenario(prop: &str, u: &Unit) -> String {
     match prop {
         "C01" => c01::scenario(u),
         "C12" => c12::scenario(u),
+        "C11" => c11::scenario(u),
+        "C09" => c09::scenario(u),
         "C10" => c10::scenario(u),
         "C07" => c07::scenario(u),
         "C06" => c06::scenario(u),
